@@ -494,7 +494,8 @@ func lexText(l *lexer) stateFn {
 				}
 			case '*':
 				maybeEmitText(l, 2)
-				if l.next() == '*' {
+				// "/**" opens a soydoc, except "/**/" which is an empty block comment.
+				if l.next() == '*' && l.peek() != '/' {
 					return lexSoyDoc(l)
 				}
 				l.backup()
